@@ -1392,7 +1392,7 @@ func main() {
 	r.Assume = []string{
 		"scripts of the generated blocks are not executed (blocks are marked trusted after the full CheckBlock, like the client's -trust flag): the property is about the index, not about script validity",
 		"addresses = the five forms the index supports (P2PKH, P2SH, P2WPKH, P2WSH, P2TR); other witness versions have an address but no index by design",
-		"no two addresses in play collide under SipHash-2-4(0,0) and no two live transactions share their first 8 txid bytes (hypotheses hinj / Fresh of the theorems; 64-bit collisions are not generated)",
+		"no two addresses in play collide under SipHash-2-4(0,0) and no two live transactions share their first 8 txid bytes (hypotheses hinj / Admissible of theorem balances_eq_projection; 64-bit collisions are not generated)",
 		"the index's disk cache (wallet/disk.go SaveBalances/LoadBalances) and the abort path of LoadBalancesFromUtxo are outside the model",
 		"UTXO change steps fed to the model are derived from snapshots of UnspentDB.HashMap taken at the vhook points after every block connection / disconnection",
 	}
